@@ -276,11 +276,13 @@ def gen_hostile_bytes(rng, valid_pool):
 # ------------------------------------------------------------------ hostile exception records (C07 / C09)
 def gen_exc_payload(rng, vocab):
     """something a hostile peer may send as the args of MSG_EXCEPTION. vocab: canary_module, ctor_class=(mod, cls)"""
-    mods = [vocab["canary_module"], "rv_evil_%d" % rng.randrange(5), "builtins", "os", "subprocess", "pickle", "sys",
+    mods = [vocab["canary_module"], "rv_evil_%d" % rng.randrange(5), "builtins", "builtins", "builtins", "builtins", "os", "subprocess", "pickle", "sys",
             vocab["ctor_class"][0], "rpyc.core.vinegar", "", "builtins.os", b"builtins", 7, None, ("builtins",), "a" * 300]
     clss = ["Evil", "eval", "exec", "open", "system", "Popen", "SystemExit", "KeyboardInterrupt", "ValueError", "type", "object",
             "BaseException", "Exception", vocab["ctor_class"][1], "GenericException", "_get_exception_class", "__import__",
-            "ExceptionGroup", "UnicodeDecodeError", "OSError", "", b"ValueError", 3, None, "__class__", "a.b"]
+            "ExceptionGroup", "UnicodeDecodeError", "OSError", "", b"ValueError", 3, None, "__class__", "a.b",
+            "dict", "list", "int", "str", "bytearray", "memoryview", "property", "staticmethod", "super", "map", "range", "slice",
+            "frozenset", "classmethod", "bool", "NoneType", "function", "module", "Warning", "BaseExceptionGroup", "GeneratorExit"]
     attr_names = ["__class__", "__dict__", "args", "__init__", "__new__", "_remote_tb", "_remote_version", "__cause__",
                   "__context__", "__traceback__", "__suppress_context__", "with_traceback", "errno", "x", "", 5, None,
                   "__setattr__", "__reduce__", "__str__", "__module__", "__doc__", "__slots__", "__weakref__", "add_note"]
